@@ -1156,6 +1156,8 @@ class CallsMixin(ExecBase):
                         e = z3.Concat(e, s)
                     e = z3.Concat(e, self.need(self.as_val(it, st, node), "s", st, node))
                 return VStr(e)
+            if A and A[0].tag == "st" and hasattr(self, "unordered_iteration"):
+                self.unordered_iteration(st, node, "join over a set")
             f = z3.Function("py.join", StrS, ListS, StrS)
             return VStr(f(s, self.need(A[0], "l", st, node)))
         if name == "strip" and len(A) == 1 and A[0].tag == "s" and z3.is_string_value(z3.simplify(A[0].e)):
